@@ -289,6 +289,49 @@ macro_rules! macros8 {
     }};
 }
 
+/// The range under test as an *argument* of an adapter (zip argument, flat_map body): it must be walked in the
+/// direction the chain is iterated in.  The outer sources are sized so that zip never truncates (std and konst
+/// agree on the pairing then); all pairs of an 8-bit type, plus `s..` forms near MAX.
+macro_rules! macros8_args {
+    ($rep:ident, $T:ty, $tyname:expr) => {{
+        for s in <$T>::MIN..=<$T>::MAX {
+            for e in <$T>::MIN..=<$T>::MAX {
+                $rep.states += 1;
+                let mut bad: Option<(&str, String, String)> = None;
+                macro_rules! cmpseq {
+                    ($name:expr, $exp:expr, $got:expr) => {{
+                        $rep.transitions += 1;
+                        let exp: Vec<$T> = $exp;
+                        let got: Result<Vec<$T>, String> = catch(|| $got);
+                        if got.as_ref().ok() != Some(&exp) && bad.is_none() {
+                            bad = Some(($name, format!("{} items: {:?}..", exp.len(), &exp[..exp.len().min(6)]), match &got { Ok(g) => format!("{} items: {:?}..", g.len(), &g[..g.len().min(6)]), Err(p) => format!("panic: {p}") }));
+                        }
+                    }};
+                }
+                let n = (s..e).count();
+                let ni = (s..=e).count();
+                cmpseq!("for_each!((i, x) in 0..n, zip(s..e))", (0..n).zip(s..e).map(|p| p.1).collect(), { let mut v = Vec::new(); konst::iter::for_each! {(_i, x) in 0..n, zip(s..e) => v.push(x); } v });
+                cmpseq!("for_each!((i, x) in 0..n, zip(s..e), rev())", (0..n).zip(s..e).rev().map(|p| p.1).collect(), { let mut v = Vec::new(); konst::iter::for_each! {(_i, x) in 0..n, zip(s..e), rev() => v.push(x); } v });
+                cmpseq!("for_each!((i, x) in 0..n, zip(s..=e), rev())", (0..ni).zip(s..=e).rev().map(|p| p.1).collect(), { let mut v = Vec::new(); konst::iter::for_each! {(_i, x) in 0..ni, zip(s..=e), rev() => v.push(x); } v });
+                cmpseq!("for_each!((i, x) in 0..n, rev(), zip(s..e))", (0..n).rev().zip(s..e).map(|p| p.1).collect(), { let mut v = Vec::new(); konst::iter::for_each! {(_i, x) in 0..n, rev(), zip(s..e) => v.push(x); } v });
+                cmpseq!("for_each!(x in 0..1, flat_map(|_| s..e))", (0..1usize).flat_map(|_| s..e).collect(), { let mut v = Vec::new(); konst::iter::for_each! {x in 0..1usize, flat_map(|_| s..e) => v.push(x); } v });
+                cmpseq!("for_each!(x in 0..1, flat_map(|_| s..=e), rev())", (0..1usize).flat_map(|_| s..=e).rev().collect(), { let mut v = Vec::new(); konst::iter::for_each! {x in 0..1usize, flat_map(|_| s..=e), rev() => v.push(x); } v });
+                cmpseq!("for_each!(x in 0..1, rev(), take(1), flat_map(|_| s..e))", (0..1usize).rev().take(1).flat_map(|_| s..e).collect(), { let mut v = Vec::new(); konst::iter::for_each! {x in 0..1usize, rev(), take(1), flat_map(|_| s..e) => v.push(x); } v });
+                cmpseq!("for_each!(x in 0..1, rev(), enumerate(), flat_map(|_| s..=e))", (0..1usize).rev().enumerate().flat_map(|_| s..=e).collect(), { let mut v = Vec::new(); konst::iter::for_each! {x in 0..1usize, rev(), enumerate(), flat_map(|_| s..=e) => v.push(x); } v });
+                cmpseq!("eval!(0..n, rev(), skip(0), zip(s..e), for_each)", (0..n).rev().skip(0).zip(s..e).map(|p| p.1).collect(), { let mut v = Vec::new(); konst::iter::eval!(0..n, rev(), skip(0), zip(s..e), for_each(|p| v.push(p.1))); v });
+                if s > <$T>::MAX - 4 && e == <$T>::MIN {
+                    let k = (<$T>::MAX as i32 - s as i32) as usize;
+                    cmpseq!("for_each!((i, x) in 0..k, zip(s..))", (0..k).zip(s..).map(|p| p.1).collect(), { let mut v = Vec::new(); konst::iter::for_each! {(_i, x) in 0..k, zip(s..) => v.push(x); } v });
+                    cmpseq!("for_each!((i, x) in 0..k, rev(), zip(s..))", (0..k).rev().zip(s..).map(|p| p.1).collect(), { let mut v = Vec::new(); konst::iter::for_each! {(_i, x) in 0..k, rev(), zip(s..) => v.push(x); } v });
+                }
+                if let Some((name, exp, got)) = bad {
+                    $rep.violation(viol("range-macros", name, format!("{}|macros_args|{s:?}|{e:?}|-", $tyname), format!("{name} with s={s:?}, e={e:?} ({})", $tyname), exp, got));
+                }
+            }
+        }
+    }};
+}
+
 fn chars_vals() -> Vec<char> {
     [0u32, 1, 2, 0xD7FD, 0xD7FE, 0xD7FF, 0xE000, 0xE001, 0xE002, 0x10FFFD, 0x10FFFE, 0x10FFFF].iter().map(|&n| char::from_u32(n).unwrap()).collect()
 }
@@ -345,6 +388,8 @@ fn j_u8(r: &mut Report, _d: usize) { complete8!(r, u8, "u8"); }
 fn j_i8(r: &mut Report, _d: usize) { complete8!(r, i8, "i8"); }
 fn j_m_u8(r: &mut Report, _d: usize) { macros8!(r, u8, "u8"); }
 fn j_m_i8(r: &mut Report, _d: usize) { macros8!(r, i8, "i8"); }
+fn j_ma_u8(r: &mut Report, _d: usize) { macros8_args!(r, u8, "u8"); }
+fn j_ma_i8(r: &mut Report, _d: usize) { macros8_args!(r, i8, "i8"); }
 fn j_u16(r: &mut Report, d: usize) { closure_wide!(r, u16, "u16", int_vals!(u16), d); }
 fn j_i16(r: &mut Report, d: usize) { closure_wide!(r, i16, "i16", int_vals!(i16), d); }
 fn j_u32(r: &mut Report, d: usize) { closure_wide!(r, u32, "u32", int_vals!(u32), d); }
@@ -369,14 +414,14 @@ pub fn run(tier: Tier, rep: &mut Report) -> (String, String) {
         jobs.retain(|(n, _)| ["i128", "char", "usize"].contains(n));
         jobs.push(("u8", j_u8_small));
     } else {
-        jobs.splice(0..0, [("u8", j_u8 as Job), ("i8", j_i8 as Job), ("u8 macros", j_m_u8 as Job), ("i8 macros", j_m_i8 as Job)]);
+        jobs.splice(0..0, [("u8", j_u8 as Job), ("i8", j_i8 as Job), ("u8 macros", j_m_u8 as Job), ("i8 macros", j_m_i8 as Job), ("u8 as adapter argument", j_ma_u8 as Job), ("i8 as adapter argument", j_ma_i8 as Job)]);
     }
     rep.merge(par_each(&jobs, n_threads(tier), |(_, f), r| f(r, depth)));
     const_walk(rep);
     rep.traces = rep.transitions;
     (
         "state = (iterator type in {RangeIter, RangeIterRev, RangeInclusiveIter, RangeInclusiveIterRev}, start, end) read through the __verif_bounds hook; transitions = next and next_back of every state; oracle = the std range built from alpha(state) stepped the same way: yielded value and alpha(post-state) must agree (bisimulation; complete for u8/i8 because every pair is a state and the set is closed under both transitions); RangeFromIter: every start < MAX; macros for_each!/eval!/for_range!/collect_const! must yield std's sequence; non-trivial = states touching MIN/MAX or (nearly) empty".into(),
-        format!("u8, i8: all 65536 (start,end) pairs x 4 iterator types (complete graph) + iteration macros over all pairs; u16..u128, i16..i128, usize, isize: closure to depth {depth} from all pairs over {{MIN,MIN+1,MIN+2,-2,-1,0,1,2,MAX-2,MAX-1,MAX}}; char: closure to depth {depth} from pairs over {{0,1,2,D7FD..D7FF,E000..E002,10FFFD..10FFFF}}; collect_const! on 12 boundary ranges at compile time; hook-independent history trees (values only) on all ranges of length <= min(depth,9) starting at each boundary value for u8,i8,u16,i32,u64,i128,usize,char"),
+        format!("u8, i8: all 65536 (start,end) pairs x 4 iterator types (complete graph) + iteration macros over all pairs, with the range as the source (9 forms) and as a zip argument / flat_map body in forward and reversed chains (9 forms, plus `s..` near MAX); u16..u128, i16..i128, usize, isize: closure to depth {depth} from all pairs over {{MIN,MIN+1,MIN+2,-2,-1,0,1,2,MAX-2,MAX-1,MAX}}; char: closure to depth {depth} from pairs over {{0,1,2,D7FD..D7FF,E000..E002,10FFFD..10FFFF}}; collect_const! on 12 boundary ranges at compile time; hook-independent history trees (values only) on all ranges of length <= min(depth,9) starting at each boundary value for u8,i8,u16,i32,u64,i128,usize,char"),
     )
 }
 
@@ -394,6 +439,12 @@ pub fn replay(case: &str, rep: &mut Report) {
         j_trees(rep, 9);
         let pre = p[..4].join("|");
         rep.violations.retain(|v| v.replay.starts_with(&pre));
+        rep.violations_total = rep.violations.len() as u64;
+        return;
+    }
+    if p.get(1) == Some(&"macros_args") {
+        if p[0] == "u8" { j_ma_u8(rep, 0) } else { j_ma_i8(rep, 0) }
+        rep.violations.retain(|v| v.replay == case);
         rep.violations_total = rep.violations.len() as u64;
         return;
     }
